@@ -176,6 +176,11 @@ func (s *server) fresh(logSize int) bool {
 	if s.c != nil {
 		s.c.Kill()
 	}
+	// the scratch area is a tmpfs: RocksDB preallocates its WAL there, so old data directories must go
+	if s.db != "" {
+		os.RemoveAll(s.db)
+		os.RemoveAll(s.rf)
+	}
 	s.gen++
 	s.db = filepath.Join(s.base, fmt.Sprintf("db%d", s.gen))
 	s.rf = filepath.Join(s.base, fmt.Sprintf("raft%d", s.gen))
